@@ -15,6 +15,7 @@ package core
 // lease and every stored lease is tracked by the expiration manager.
 
 import (
+	"sync"
 	"encoding/json"
 	"fmt"
 	"os"
@@ -117,11 +118,29 @@ func c06Do(s *Sys, tok string, k c06Kind) c06Out {
 }
 
 // expireKeys returns the physical keys of lease records and index records.
+// expirePhys remembers under which physical key a lease record was last seen
+// (root namespace: sys/expire/id/<id>; child namespace: namespaces/<uuid>/sys/expire/id/<id>,
+// the id then ends in ".<namespace id>").
+var expirePhys sync.Map
+
+func expirePhysKey(id string) string {
+	if v, ok := expirePhys.Load(id); ok {
+		return v.(string)
+	}
+	return "sys/expire/id/" + id
+}
+
 func expireKeys(s *Sys) (ids, idx []string) {
 	for k := range s.Phys.Snapshot() {
-		if strings.HasPrefix(k, "sys/expire/id/") {
-			ids = append(ids, strings.TrimPrefix(k, "sys/expire/id/"))
-		} else if strings.HasPrefix(k, "sys/expire/token/") {
+		root := strings.HasPrefix(k, "sys/expire/")
+		if !root && !strings.HasPrefix(k, "namespaces/") {
+			continue
+		}
+		if i := strings.Index(k, "sys/expire/id/"); i >= 0 && (root == (i == 0)) {
+			id := k[i+len("sys/expire/id/"):]
+			ids = append(ids, id)
+			expirePhys.Store(id, k)
+		} else if i := strings.Index(k, "sys/expire/token/"); i >= 0 && (root == (i == 0)) {
 			idx = append(idx, k)
 		}
 	}
